@@ -170,6 +170,7 @@ def run(tier, seed):
         rep.violation("build failed: " + e.what, {"output": e.output[-4000:], "broken": "K-C15 (build)"}, nofail=True)
         return rep.finish("./check C15", "n/a")
     impl, model = Impl(), Model()
+    impl.timeout = 90      # the op has its own time-outs (about 10 s); no answer at all = the Stopper dead-locked the harness
     ok, info = standard_proof_step(rep, PROP, thorough=(tier == "thorough"))
     rng = SplitMix(seed)
 
@@ -200,7 +201,9 @@ def run(tier, seed):
         for k, v in ops:
             rep.count("seq-" + ({"o": "open-gate", "x": "user-cancel"}.get(k) or KNAME[v]))
         if r.get("harnessCrash") or r.get("harnessError") or r.get("panicked"):
-            harness_trouble.append({"cap": cap, "ops": toks, "res": r})
+            harness_trouble.append({"cap": cap, "ops": toks, "res": r, "Acts": seq_acts(ops), "Expect": exp})
+            if sum(1 for h in harness_trouble if h["res"].get("hang")) >= 2:
+                break
             continue
         got = r.get("obs") or []
         if got != exp or r.get("final") != exp[-1] or r.get("hung") or r.get("panics"):
@@ -224,7 +227,9 @@ def run(tier, seed):
         rep.case(("c", key))
         rep.count("sched-gated-closers" if gc else "sched-free-closers")
         if r.get("harnessCrash") or r.get("harnessError") or r.get("panicked"):
-            harness_trouble.append({"sched": key, "res": r})
+            harness_trouble.append({"sched": key, "res": r, "Cap": cap, "GateClosers": gc, "Acts": acts})
+            if sum(1 for h in harness_trouble if h["res"].get("hang")) >= 2:
+                break
             continue
         log = r.get("log") or []
         log_stats(rep, log)
@@ -240,6 +245,10 @@ def run(tier, seed):
         if (r.get("hung") and not wgp) or other_panics or [t for t in (r.get("timeouts") or []) if "cancel " not in t]:
             hangs.append({"cap": cap, "gate_closers": gc, "acts": acts, "hung": r.get("hung"), "panics": r.get("panics"),
                           "timeouts": r.get("timeouts"), "log": log})
+            if len(hangs) >= 5:
+                # every hanging schedule costs the harness's own time-outs: five are enough for the verdict
+                batch.append((cap, gc, acts, log))
+                break
         batch.append((cap, gc, acts, log))
     ores = model.ask_many(["C15 oracle-log %d %s" % (cap, ",".join(log) or "-") for cap, gc, acts, log in batch])
     for (cap, gc, acts, log), o in zip(batch, ores):
@@ -271,6 +280,15 @@ def run(tier, seed):
         rep.violation("real Stopper hangs / panics / never cancels a context on a gated schedule",
                       {"op": "stopper", "Cap": f["cap"], "GateClosers": f["gate_closers"], "Acts": f["acts"], "hung": f["hung"],
                        "panics": f["panics"], "timeouts": f["timeouts"], "log": f["log"]}, tags={"rule": "hang"})
+    elif [h for h in harness_trouble if h["res"].get("hang") or h["res"].get("harnessCrash")]:
+        h = [h for h in harness_trouble if h["res"].get("hang") or h["res"].get("harnessCrash")][0]
+        rep.violation("the real Stopper %s the harness on this %s (no answer: a call of the Stopper API never returned, or the "
+                      "process died)" % ("dead-locked" if h["res"].get("hang") else "crashed",
+                                         "gated schedule" if "sched" in h else "sequential script"),
+                      {"op": "stopper", "Cap": h.get("Cap", h.get("cap")), "GateClosers": h.get("GateClosers", False),
+                       "Acts": h["Acts"], "Expect": h.get("Expect"), "result": h["res"],
+                       "how": "vharness op 'stopper' with these acts; schedule-dependent, repeat if needed"},
+                      tags={"rule": "hang"})
     else:
         if not ok:
             rep.violation("proof obligations of C15 no longer check",
